@@ -28,7 +28,12 @@ Section AList.
     end.
 End AList.
 
-(* an address "ip:port" is the pair (ip, port); ip is the IPv4 address as a number *)
+(* an address TEXT is the pair (ip, p): ip identifies the host part that
+   iputil.SplitAddr returns, p = variant * 65536 + port where port is the number
+   SplitAddr parses and variant tells texts with the same ip and port apart
+   (0: the canonical "ip:port" that connection.ListenAddr() renders; 1: a
+   zero-padded port "ip:06000"; 2: a bracketed host "[::1]:6060"). The maps are
+   keyed by the text; ListenPort and the listenAddrs key use the parsed port. *)
 Definition addr := (Z * Z)%type.
 Definition addr_eqb (a b : addr) : bool := (fst a =? fst b) && (snd a =? snd b).
 
@@ -112,7 +117,7 @@ Definition pending (s : st) (a : addr) : res (st * err) :=
   match aget addr_eqb a (conns s) with
   | Some _ => Val (s, EExists)
   | None =>
-      let c := mkConn SPending true 0 (snd a) 0 0 in
+      let c := mkConn SPending true 0 (snd a mod 65536) 0 0 in
       Val (mkSt (aset addr_eqb a c (conns s)) (mirrors s)
                 (aset Z.eqb (fst a) (getz (fst a) (ipc s) + 1) (ipc s))
                 (gids s)
